@@ -126,6 +126,8 @@ type Enc struct {
 	siteResults map[string]*Val // results of call sites, for resultof("callee#n") in contracts
 	module     *Module
 	ghostSites map[string]bool // call sites whose execution is tracked by a ghost flag (reached("callee#n"))
+	loopWM     map[int]string  // loop ordinal -> allocation watermark at the loop head (iterfresh(x, N))
+	iterSites  map[string]int  // call sites tracked per iteration (thisiter("callee#n") in a step clause of loop N) -> loop ordinal
 	effTaint bool
 	effDepth int
 	specName string
